@@ -188,3 +188,19 @@ def guarded_push(xs, flag):
 def guarded_bump(c, flag):
     r = bump(c, 1) if flag else 0
     return r
+
+
+def visit(name, visited=None):
+    if visited is None:
+        visited = set()
+    visited.add(name)
+    return len([name])
+
+
+def needs_existing(n):
+    return n.value
+
+
+def make_and_use(v):
+    n = STNode(v)
+    return needs_existing(n)
